@@ -101,3 +101,139 @@ _mk("_ColumnProportions", ("C03", "C04"), lambda B, env: spec.proportion_blocks(
     som=_som_props("column"), dates=True)
 _mk("_TableProportions", ("C03", "C04"), lambda B, env: spec.proportion_blocks(B, env, env.w, "table"),
     som=_som_props("table"))
+
+
+# ---- C11 variances / standard errors --------------------------------------------------
+_BASES = {
+    "row": ("row_weighted_bases", spec.row_base_blocks, "row_proportions", "row_proportion_variances"),
+    "column": ("column_weighted_bases", spec.column_base_blocks, "column_proportions", "column_proportion_variances"),
+    "table": ("table_weighted_bases", spec.table_base_blocks, "table_proportions", "table_proportion_variances"),
+}
+
+
+class _VarianceContract(_BlocksContract):
+    cls = "_ProportionVariances"
+    props = ("C11", "C04")
+    direction = None
+
+    def __init__(self):
+        self.name = "%s:_ProportionVariances.blocks<%s>" % (MOD, self.direction)
+
+    def run(self, B, cfg):
+        env = self.env(B, cfg)
+        p = spec.proportion_blocks(B, env, env.w, self.direction)
+        nt = _BASES[self.direction][1](B, env, env.w)
+        obj = B.new(
+            "%s:_ProportionVariances" % MOD, env.dims, B.stub("second_order_measures"), env.cube_measures, p, nt
+        )
+        check_blocks(B, "blocks", obj.blocks, spec.variance_blocks(B, env, env.w, self.direction))
+        # non-negativity (statement): wherever defined
+        for a in (0, 1):
+            for b in (0, 1):
+                blk = obj.blocks[a][b]
+                B.all_cells(
+                    "nonneg[%d][%d]" % (a, b), blk.shape,
+                    lambda x, y, blk=blk: B.bor(B.isnan(B.rd(blk, x, y)), B.fle(0, B.rd(blk, x, y))),
+                )
+
+
+for _d in ("row", "column", "table"):
+    REGISTRY.append(type("C_Var_" + _d, (_VarianceContract,), dict(direction=_d, dates=False))())
+
+
+def _som_stderr(direction):
+    def som(B, env):
+        bname, bspec, pname, vname = _BASES[direction]
+        return B.stub(
+            "second_order_measures",
+            **{
+                vname: blocks_stub(B, vname, spec.variance_blocks(B, env, env.w, direction)),
+                bname: blocks_stub(B, bname, bspec(B, env, env.w)),
+            }
+        )
+
+    return som
+
+
+_mk("_RowStandardError", ("C11",), lambda B, env: spec.stderr_blocks(B, env, env.w, "row"), som=_som_stderr("row"))
+_mk("_ColumnStandardError", ("C11",), lambda B, env: spec.stderr_blocks(B, env, env.w, "column"), som=_som_stderr("column"))
+_mk("_TableStandardError", ("C11",), lambda B, env: spec.stderr_blocks(B, env, env.w, "table"), som=_som_stderr("table"))
+
+
+# ---- C03: range, NaN-iff-zero-base, sums to one ----------------------------------------
+class _ProportionLaws(_BlocksContract):
+    """laws of the proportion blocks stated by C03, proved over the block contracts"""
+
+    props = ("C03",)
+    direction = None
+    cls = None
+
+    def __init__(self):
+        self.name = "%s:%s.blocks<laws>" % (MOD, self.cls)
+
+    def run(self, B, cfg):
+        env = self.env(B, cfg)
+        d = self.direction
+        som = _som_props(d)(B, env)
+        obj = B.new("%s:%s" % (MOD, self.cls), env.dims, som, env.cube_measures)
+        blocks = obj.blocks
+        cnt_b = spec.count_blocks(B, env, env.w)
+        base_b = _BASES[d][1](B, env, env.w)
+        rows, cols = env.rows, env.cols
+        for a in (0, 1):
+            for b in (0, 1):
+                blk, cb, bb = blocks[a][b], cnt_b[a][b], base_b[a][b]
+
+                def is_difference(x, y, a=a, b=b):
+                    return B.bor(
+                        rows.is_diff(x) if a == 1 else False, cols.is_diff(y) if b == 1 else False
+                    )
+
+                B.all_cells(
+                    "in[0,1][%d][%d]" % (a, b), blk.shape,
+                    lambda x, y, blk=blk, isd=is_difference: B.bor(
+                        isd(x, y),
+                        B.isnan(B.rd(blk, x, y)),
+                        B.band(B.fle(0, B.rd(blk, x, y)), B.fle(B.rd(blk, x, y), 1)),
+                    ),
+                )
+                # NaN exactly where the base is zero (for non-difference cells; a zero base
+                # forces a zero count, so the undefined quotient is 0/0 = NaN, never Inf)
+                B.all_cells(
+                    "nan-iff-zero-base[%d][%d]" % (a, b), blk.shape,
+                    lambda x, y, blk=blk, bb=bb, cb=cb, isd=is_difference: B.bor(
+                        isd(x, y),
+                        B.band(
+                            B.isnan(B.rd(blk, x, y)) == (B.rd(bb, x, y) == 0),
+                            B.bor(B.rd(bb, x, y) != 0, B.rd(cb, x, y) == 0),
+                        ),
+                    ),
+                )
+        base = blocks[0][0]
+        R, C = env.R, env.C
+        if d == "row" and cfg["cc"]:
+            B.all_cells(
+                "row-sums-to-1", (R,),
+                lambda i: B.bor(
+                    B.rd(env.w.rows_base, i) == 0, B.feq(B.Sum(C, lambda j: B.rd(base, i, j)), 1)
+                ),
+            )
+        if d == "column" and cfg["rc"]:
+            B.all_cells(
+                "column-sums-to-1", (C,),
+                lambda j: B.bor(
+                    B.rd(env.w.columns_base, j) == 0, B.feq(B.Sum(R, lambda i: B.rd(base, i, j)), 1)
+                ),
+            )
+        if d == "table" and cfg["rc"] and cfg["cc"]:
+            B.check(
+                "table-sums-to-1",
+                B.bor(
+                    env.w.table_base == 0,
+                    B.feq(B.Sum(R, lambda i: B.Sum(C, lambda j: B.rd(base, i, j))), 1),
+                ),
+            )
+
+
+for _cls, _d in (("_RowProportions", "row"), ("_ColumnProportions", "column"), ("_TableProportions", "table")):
+    REGISTRY.append(type("C_Laws_" + _d, (_ProportionLaws,), dict(cls=_cls, direction=_d, dates=False))())
